@@ -45,7 +45,7 @@ CHECKS = {
                  "(seed 16..64 B, 8-byte keyset id incl. high bit and multiples/neighbours of 2^31-1, counter in [0,2^31-1] biased to the edges) for NUT-13; "
                  "oracle = bit-for-bit equality with the independent math/big + HMAC-SHA512 reference pinned to the spec vectors. "
                  "non-trivial: h2c needing >=1 counter iteration; key set unsorted/non-standard or >10 keys; NUT-13 with id >= 2^31, counter >= 2^16 or a derived value with a leading zero byte; "
-                 "distinct = hash of the input."),
+                 "distinct = hash of the input. Native fuzz units (thorough, coverage-instrumented build): the same generators and oracles with Go's native fuzzer mutating the byte stream rapid draws from (rapid.MakeFuzz), i.e. steered by coverage of the code under test."),
         "technique": "property-based differential testing (rapid) against an independent spec-derived reference + native fuzzing",
         "level_text": ("Generated-input differential testing: every generated message / key set / (seed, id, counter) triple is run through gonuts and through an independent reference written from NUT-00/02/13 and BIP-32 with math/big and crypto/hmac; any bit difference fails. "
                        "Exploration is the right level: the functions are pure and total, so agreement on 10^4-10^5 inputs aimed at the edge regions (multi-iteration h2c, ids >= 2^63, id mod 2^31-1 neighbours, counters at 2^31-1, leading-zero derived keys) plus the spec vectors is what search can establish; it does not prove equality on all inputs."),
@@ -59,6 +59,8 @@ CHECKS = {
             rapid("nut13", "^TestNut13$", 1200, 240000),
             rapid("p2pkkey", "^TestP2PKKey$", 200, 16000, qs=1, ts=4),
             fuzz("fuzzh2c", "FuzzH2C", "300s"),
+            fuzz("fuzz_nut13", "FuzzNut13", "150s"),
+            fuzz("fuzz_keysetid", "FuzzKeysetID", "150s"),
         ],
     },
 }
@@ -266,7 +268,7 @@ CHECKS["C14"] = {
              "oracle: Decode(Serialize(New(proofs))) (generic and version-specific decoder) has the same mint, unit 'sat' and the same proofs as a multiset grouped by keyset with order checked inside a keyset, incl. witness and (when requested and complete) DLEQ; Amount() = sum mod 2^64 = Proofs().Amount(); only the documented constructor error (V4 + includeDLEQ + DLEQ without r) is allowed. "
              "decoder totality: (rapid) 14 input families - truncations and single-byte mutations of valid tokens, wrong / swapped prefixes, short strings, prefix + base64 (url padded, raw url, std) of arbitrary JSON values and arbitrary CBOR items incl. wrong types, empty maps, nested items and huge declared lengths; (exhaustive) every string of length 0..7 over {c,a,s,h,u,A,B,e,=,-} and cashuA/cashuB + every string of length 0..3 over the base64url alphabet; (thorough) native fuzzing seeded and unseeded; "
              "oracle: DecodeToken / DecodeTokenV3 / DecodeTokenV4 return an error or a token on which Proofs, Mint, Amount, Serialize return without panic and whose re-serialisation decodes to the same proofs. "
-             "non-trivial: round trip with >=2 keysets or a witness or DLEQ or a non-ASCII / JSON secret; decoder input that passed the prefix check; distinct = hash of the case."),
+             "non-trivial: round trip with >=2 keysets or a witness or DLEQ or a non-ASCII / JSON secret; decoder input that passed the prefix check; distinct = hash of the case. Native fuzz units (thorough, coverage-instrumented build): the same generators and oracles with Go's native fuzzer mutating the byte stream rapid draws from (rapid.MakeFuzz), i.e. steered by coverage of the code under test."),
     "level_text": "Generated proof sets and generated / enumerated / fuzzed strings against the real constructors and decoders; any lost or altered field, wrong amount or panic fails and shrinks to a minimal token or string.",
     "level_note": "Trusted: Go encoding/base64, encoding/json, fxamacker/cbor for building inputs. Hex fields are generated lower-case and strings valid UTF-8 (what the formats can carry).",
     "assumptions": ["hex fields lower-case; strings valid UTF-8; cross-keyset proof order is not promised by V4"],
@@ -277,6 +279,7 @@ CHECKS["C14"] = {
         rapid("decode", "^TestDecodeTotal$", 4000, 1200000, qs=4, ts=16),
         fuzz("fuzz_seeded", "FuzzDecode", "300s"),
         dict(fuzz("fuzz_empty", "FuzzDecode", "300s"), env={"VERIF_FUZZ_CORPUS": "empty"}),
+        fuzz("fuzz_roundtrip", "FuzzRoundTrip", "240s"),
     ],
 }
 
@@ -287,7 +290,7 @@ CHECKS["C10"] = {
     "rule": ("(a) pure BDHKE: secrets = arbitrary bytes 0..512 (incl. empty, 512, non-UTF-8), blinding scalars uniform plus edges {1,2,n-1,n-2}, keys = the 60 keys of reference-derived keysets and random scalars; oracle: B_ = H(s)+rG, C_ = k*B_, Unblind(...) = k*H(s) computed by the reference only, same C for a second r, Verify true for (s,k) and false for another key of the keyset, a changed secret, C+G, -C, 2C, C_, Y. "
              "(b) DLEQ: GenerateDLEQ's proof accepted by crypto.VerifyDLEQ, nut12.VerifyBlindSignatureDLEQ and the reference verifier; reference prover with chosen nonces (uniform and edges) accepted by the implementation; wallet proof {e,s,r} accepted by VerifyProofDLEQ / VerifyProofsDLEQ; 16 blind-tuple and 15 proof single-field tampers (e, s, r, A -> other amount's key / other keyset / -A, B_, C_/C, secret, amount, swaps) each rejected by both entry points; wrong-key signature with a well-formed proof for the wrong key rejected; malformed hex / non-canonical encodings never panic and are rejected unless the verified value is unchanged. "
              "(c) histories on a real mint (fund, swap, rotation, restart, restore): every returned signature carries (e,s) accepted under the published key and under the reference-derived key, C_ = k*B_ by the reference, and RestoreSignatures before and after restart returns identical values that still verify. "
-             "every case is a full pipeline (non-trivial); classes record edge scalars, secret class, tamper kind, persisted signatures; distinct = hash of the inputs."),
+             "every case is a full pipeline (non-trivial); classes record edge scalars, secret class, tamper kind, persisted signatures; distinct = hash of the inputs. Native fuzz units (thorough, coverage-instrumented build): the same generators and oracles with Go's native fuzzer mutating the byte stream rapid draws from (rapid.MakeFuzz), i.e. steered by coverage of the code under test."),
     "level_text": "Generated inputs through the real crypto / nut12 functions and the real mint, judged by identities recomputed with an independent reference; exploration over 10^3-10^5 cases aimed at edge scalars and every tamper kind.",
     "level_note": "Trusted: harness/ref (math/big secp256k1, NUT-12 prover/verifier pinned to the NUT-12 vectors). Value-preserving re-encodings (upper-case hex, r+n, uncompressed points, bytes appended to a 32-byte scalar which ParseDLEQ truncates) are recorded as observations, not as violations: the statement is about changed values.",
     "assumptions": ["reference implementation harness/ref correct", "hash values >= n and degenerate points are unreachable and skipped"],
@@ -298,6 +301,8 @@ CHECKS["C10"] = {
         rapid("encoding", "^TestDLEQEncoding$", 1000, 200000, qs=2, ts=16),
         rapid("mintsigs", "^TestMintSignatures$", 48, 6000, qs=8, ts=16),
         rapid("http", "^TestMintSignaturesHTTP$", 64, 6000, qs=8, ts=16),
+        fuzz("fuzz_encoding", "FuzzDLEQEncoding", "150s"),
+        fuzz("fuzz_bdhke", "FuzzBDHKE", "150s"),
     ],
 }
 
@@ -311,7 +316,7 @@ CHECKS["C12"] = {
     "rule": ("direct: lock configurations (n_sigs absent/0..4, 0..3 co-signers, lock key listed again, locktime absent/past/future, 0..2 refund keys, sigflag absent/SIG_INPUTS/SIG_ALL, 10% malformed tags of 9 kinds) x witnesses (random lists over lock / co-signer / refund / foreign keys of valid signatures, second different valid signature by the same key, literal duplicates, signatures over a wrong message or the hex string, non-hex, truncated, empty strings; threshold attempts = subset of authorised keys padded with extra signatures of one key up to threshold +-1 in drawn order; refund-signed; witness shapes none / {} / garbage / array / null) on nut11.VerifyP2PKLockedProof; "
              "end to end: 1..3 really minted locked proofs (same or different conditions) among 0..3 plain proofs in a drawn order through Mint.Swap (outputs unsigned / helper-signed / wrong key / one unsigned / threshold-signed) and Mint.MeltTokens; "
              "oracle: independent evaluator - accepted => >= max(1,n_sigs) distinct authorised keys (by x coordinate) have a BIP-340-valid signature over sha256(secret) before locktime; after locktime anyone without refund keys else >= 1 refund-key signature; any SIG_ALL input => swap success only if all inputs are SIG_ALL with equal key set and threshold and every output carries enough valid signatures over sha256(bytes of B_) by listed keys, melt refused; clean and helper witnesses accepted. "
-             "non-trivial: verifier reached with a well-formed lock; distinct = (config class, witness features / element list, input order)."),
+             "non-trivial: verifier reached with a well-formed lock; distinct = (config class, witness features / element list, input order). Native fuzz units (thorough, coverage-instrumented build): the same generators and oracles with Go's native fuzzer mutating the byte stream rapid draws from (rapid.MakeFuzz), i.e. steered by coverage of the code under test."),
     "level_text": "Generated lock configurations, witnesses and input orders against the real verifier and the real mint, judged by an evaluator written from the property statement; failures shrink to a minimal secret/witness pair.",
     "level_note": _LOCK_NOTE,
     "assumptions": ["locktime compared at +-1 day only", "lock secrets above 512 bytes are refused by the mint (C04) and carry no sufficiency claim"],
@@ -320,6 +325,7 @@ CHECKS["C12"] = {
         rapid("direct", "^TestDirect$", 4000, 800000, qs=4, ts=16),
         rapid("e2e", "^TestSwapMelt$", 600, 100000, qs=12, ts=16),
         rapid("wallet", "^TestWalletP2PK$", 120, 16000, qs=4, ts=16),
+        fuzz("fuzz_direct", "FuzzDirect", "300s"),
     ],
 }
 
@@ -331,7 +337,7 @@ CHECKS["C13"] = {
              "helpers: nut14.AddWitnessHTLC on the helper domain (signer listed, n_sigs absent/0/1, before locktime) must be accepted by the verifier; "
              "end to end: really minted HTLC proofs (1..2, plus 0..2 plain) through Mint.Swap with generated witnesses, and helper cases where AddWitnessHTLC and AddWitnessHTLCToOutputs (SIG_ALL) produce every witness and the mint must accept; "
              "oracle: accepted => preimage hex-decodes and its sha256 equals the 64-char lock value and >= n_sigs distinct listed keys signed (before locktime), refund rule after it; SIG_ALL => every output carries the preimage and enough signatures over sha256(bytes of B_); helper witnesses accepted. "
-             "non-trivial: verifier reached with a well-formed lock; distinct = (config class, preimage kind, witness shape / elements, input order)."),
+             "non-trivial: verifier reached with a well-formed lock; distinct = (config class, preimage kind, witness shape / elements, input order). Native fuzz units (thorough, coverage-instrumented build): the same generators and oracles with Go's native fuzzer mutating the byte stream rapid draws from (rapid.MakeFuzz), i.e. steered by coverage of the code under test."),
     "level_text": "Generated HTLC configurations and witnesses against the real verifier, helpers and mint, judged by the independent evaluator; the helper-produced witnesses are fed to the real Mint.Swap.",
     "level_note": _LOCK_NOTE + " The wallet-level ReceiveHTLC flow is exercised by the wallet history checks (C17/C08), not here.",
     "assumptions": ["locktime compared at +-1 day only", "an unparsable witness is read as carrying the empty preimage"],
@@ -341,6 +347,7 @@ CHECKS["C13"] = {
         rapid("helper_inputs", "^TestHelperInputs$", 600, 100000, qs=2, ts=8),
         rapid("e2e", "^TestSwap$", 360, 60000, qs=10, ts=16),
         rapid("wallet", "^TestWalletHTLC$", 120, 16000, qs=4, ts=16),
+        fuzz("fuzz_direct", "FuzzDirect", "300s"),
     ],
 }
 
